@@ -587,6 +587,9 @@ func (c *TermCtx) StrLen(t *Term) *Term {
 	r := c.Raw(SInt, "(strlen $0)", t)
 	if r.lo == nil {
 		c.addAxiom(fmt.Sprintf("(assert (>= (strlen %s) 0))", t.name), t)
+		// the only string of length zero is "": a zero-length atom IS the empty string
+		empty := c.internStr("")
+		c.addAxiom(fmt.Sprintf("(assert (=> (= (strlen %s) 0) (= %s %d)))", t.name, t.name, empty), t)
 	}
 	r.lo = big.NewInt(0)
 	r.hi = big.NewInt(1 << 30)
